@@ -31,6 +31,18 @@ before the refresh continues.  The answer of the interrupted refresh itself is n
 the next complete refresh on (one more lookup, then all views) everything has to be right.  The
 event is offered only while its directory is on the effective $PATH (otherwise it is never listed).
 
+File kinds include regular files that HAVE execute mode bits but not for this process (owned by
+uid 65534 with mode 0700 / 0070, or our own file with mode 0655): the process drops
+CAP_DAC_OVERRIDE / CAP_DAC_READ_SEARCH from its effective/permitted sets (xv.caps) AND from the
+capability bounding set, so that /bin/sh and spawned children do not regain them at execve; the
+oracle stays "first file along $PATH this process may execute" (os.access + a real exec by sh).
+
+A transient failure of a directory scan is an event too: `scan-fault(d)` bumps d's mtime (so the
+next refresh re-lists it) and makes the next os.scandir(d) issued by xonsh.commands_cache (its
+`os` is rebound to a delegating shim) raise OSError(EMFILE) once.  The lookup that hits the fault
+may raise or answer "not found" and is not judged; from the next lookup on every view has to
+agree with the file system again.
+
 Only mismatches that are NEW on a state (not already present, identically, on the state before the
 event) are reported, and a mismatch of a cache view is classified by REPAIR TRANSFORMS, so that
 keys name root causes and not inputs:
@@ -1094,6 +1106,7 @@ def run(ctx):
         "directory mtimes advance by 1 s per create/delete (operations further apart than the file system's timestamp granularity); chmod leaves the directory mtime alone (real behaviour)",
         "a lookup happens on every state (the cache is refreshed after every event); histories with unobserved intermediate states are not explored separately",
         "during-scan events interrupt the refresh right after the listing of the event's own directory (the only interleaving point the listing seam offers per directory); the interrupted lookup's own answer is not judged",
+        "scan-fault events fail exactly one os.scandir call of xonsh.commands_cache with EMFILE; the failing lookup itself is not judged",
         "(state, name) pairs on which /bin/sh, shutil.which and the reference search disagree (e.g. a lone empty $PATH) are skipped and counted",
         "test executables are ELF copies of readlink, so SubprocSpec keeps binary_loc on the file itself (no shebang rewriting)",
     ]
